@@ -15,7 +15,8 @@ EXPLANATION = (
     'once per simulation otherwise, and every iteration appends one dataset; (ADD) data = design @ signal * sqrt(signal) + '
     'noise term, the noise term carrying sqrt(noise) exactly once; (DESIGN) condition and partition vectors are Kronecker '
     'products of arange with ones of the other length; (FRESH) simulated datasets own their descriptor dicts; (RNG) only '
-    're-seedable np.random module functions. The Euclidean-RDM identity (LDL / whitening algebra) is NOT decided.')
+    're-seedable np.random module functions. The Euclidean-RDM identity (LDL / whitening algebra) is NOT decided.'
+    ' Also: (TRI) a matrix handed to solve_triangular is triangular by construction (not an ldl outer factor, not eigenvectors).')
 ASSUMPTIONS = ['dependence is over-approximated: only absent paths raise violations']
 FLOOR = 25
 RULE_FLOORS = {'ND': 12}
